@@ -161,7 +161,11 @@ def _events(args):
             buf = io.StringIO()
             src = src_by_flavour[flavour]
             try:
-                collection_to_genbank([coll], buf, genbank_type=GenbankFlavor[flavour], update_translations=True)
+                # (the prokaryotic flavour is the documented default: not named half of the time)
+                if flavour == "PROKARYOTIC" and rnd.random() < 0.5:
+                    collection_to_genbank([coll], buf, update_translations=True)
+                else:
+                    collection_to_genbank([coll], buf, genbank_type=GenbankFlavor[flavour], update_translations=True)
             except Exception as ex:
                 ev.append(["gbk", flavour, model, [["!" + type(ex).__name__, [], "", "", "", ""]], False, [], []])
                 continue
